@@ -43,7 +43,21 @@ class Hang(BaseException):
     """raised by the watchdog when one call into the solver does not return (e.g. a loop that never evaluates the objective)"""
 
 
-WATCHDOG_S = 60.0            # one Solve()/DoGlobalIteration() call normally takes well under a second
+WATCHDOG_S = 30.0            # one Solve()/DoGlobalIteration() call normally takes well under a second
+MAX_HANGS = 3                # after that many watchdog hits a run() stops exploring (each costs WATCHDOG_S)
+_HANGS = [0]
+
+
+def reset_hangs():
+    _HANGS[0] = 0
+
+
+def too_many_hangs(stats=None):
+    if _HANGS[0] >= MAX_HANGS:
+        if stats is not None:
+            stats["aborted_after_hangs"] = _HANGS[0]
+        return True
+    return False
 
 
 @contextlib.contextmanager
@@ -56,6 +70,7 @@ def watchdog(run, seconds=None):
 
     def handler(signum, frame):
         run.hang = True
+        _HANGS[0] += 1
         raise Hang("a solver call did not return within %g s" % seconds)
     try:
         old = signal.signal(signal.SIGALRM, handler)
